@@ -1,1 +1,672 @@
-"""C05 rule spaces, part 3."""
+"""C05 rule spaces, part 3: _fuse_pad_into_conv, _fuse_batchnorm, _remove_optional_bias (default set, in order)."""
+from __future__ import annotations
+
+import numpy as np
+
+from vf.props import c05_spaces as S
+from vf.props.c05_mb import fill
+from vf.props.c05_spaces import Dim, MB, Skip, Space, arr
+
+
+def _w(dt, shape, salt=1, scale=0.25):
+    a = fill(dt if not dt.startswith("f") else "f32", shape, k=0, salt=salt)
+    if dt.startswith("f"):
+        return (a * scale).astype(S.npd(dt))
+    return a.astype(S.npd(dt))
+
+
+def _pos(dt, shape, salt=2):
+    """strictly positive values (variances, scales)."""
+    a = np.abs(fill("f32", shape, k=1, salt=salt)) * 0.5 + 0.5
+    return a.astype(S.npd(dt))
+
+
+# ---------------------------------------------------------------------------------------------------
+# Conv(Pad(x)) -> Conv(x, pads += ...), ConvInteger(Pad(x)) -> ConvInteger
+# ---------------------------------------------------------------------------------------------------
+def _pc_dims(rule):
+    integer = "integer" in rule["id"]
+    d = [
+        Dim("rank", [4, 3], [4, 3, 5]),
+        Dim("pads", ["sym1", "asym", "zero", "neg", "batch", "chan"]),
+        Dim("cv", ["absent", "0", "1", "empty"] + ([] if integer else ["-0.0", "1e-9"])),
+        Dim("axes", ["absent", "spatial", "neg-spatial", "last-only", "all"]),
+    ]
+    if integer:
+        d += [Dim("xzp", ["absent", "0", "3"]), Dim("wzp", ["absent", "2"], cost=1), Dim("xdt", ["u8", "i8"], cost=1)]
+    d += [
+        Dim("mode", ["absent", "constant", "reflect", "edge"], cost=1),
+        Dim("conv_pads", ["absent", "ones", "asym"], cost=1),
+        Dim("auto_pad", ["absent", "NOTSET", "VALID", "SAME_UPPER"], cost=1),
+        Dim("stride", [1, 2], cost=1), Dim("dilation", [1, 2], cost=1), Dim("group", [1, 2], cost=1),
+    ]
+    if not integer:
+        d += [Dim("bias", ["no", "yes"], cost=1)]
+    d += [S.d_ck(3), S.d_inter(1), S.D_DIMS, S.D_VI, S.d_opset(18, 13, 21, 23)]
+    return d
+
+
+def _pc_prune(p, rule):
+    if p["axes"] != "absent" and p["opset"] < 18:
+        return True
+    if p["axes"] in ("spatial", "neg-spatial", "last-only") and p["pads"] in ("batch", "chan"):
+        return True
+    if p["ck"] in ("init_input@2", "input@2") and p["axes"] == "absent":
+        return True
+    if p["ck"] in ("init_input@1", "input@1") and p["cv"] in ("absent", "empty"):
+        return True
+    if p["auto_pad"] not in ("absent", "NOTSET") and p["conv_pads"] != "absent":
+        return True
+    return False
+
+
+def _pc_build(p, rule):
+    integer = "integer" in rule["id"]
+    r = p["rank"]
+    ns = r - 2
+    mb = MB(p["opset"])
+    dt = p["xdt"] if integer else "f32"
+    C = 2
+    xs = [2, C] + [5, 6, 4][:ns]
+    x = mb.inp("x", dt, S.shp(p, xs))
+    S.bind_like(mb, xs, variants=[{"N": 1, "?0": 1}])
+    # pads over all axes: begins then ends
+    b = [0] * r
+    e = [0] * r
+    kind = p["pads"]
+    if kind == "sym1":
+        for i in range(2, r):
+            b[i] = e[i] = 1
+    elif kind == "asym":
+        for i in range(2, r):
+            b[i], e[i] = 1, 2
+        b[r - 1] = 0
+    elif kind == "neg":
+        for i in range(2, r):
+            b[i], e[i] = 1, 1
+        e[r - 1] = -1
+    elif kind == "batch":
+        b[0] = 1
+    elif kind == "chan":
+        e[1] = 2
+    ax = p["axes"]
+    if ax == "absent":
+        axes = None
+        pv = b + e
+    else:
+        if ax == "spatial":
+            axes = list(range(2, r))
+        elif ax == "neg-spatial":
+            axes = [i - r for i in range(2, r)]
+        elif ax == "last-only":
+            axes = [r - 1]
+        else:
+            axes = list(range(r))[::-1]
+        pv = [b[a % r] for a in axes] + [e[a % r] for a in axes]
+    k = S.kinds(p, 3)
+    pads_c = mb.const(arr("i64", pv), k[0], alts=[arr("i64", [0] * len(pv))])
+    cvs = {"0": 0, "1": 1, "-0.0": -0.0, "1e-9": 1e-9}
+    ins = [x, pads_c]
+    if p["cv"] in cvs:
+        ins.append(mb.const(np.array(cvs[p["cv"]], dtype=S.npd(dt)), k[1], alts=[np.array(1, dtype=S.npd(dt))]))
+    elif axes is not None:
+        ins.append(None)
+    if axes is not None:
+        ins.append(mb.const(arr("i64", axes), k[2], alts=[arr("i64", axes[::-1])]))
+    attrs = {} if p["mode"] == "absent" else {"mode": p["mode"]}
+    pad = mb.node("Pad", ins, **attrs)
+    g = p["group"]
+    Cin = C + (2 if kind == "chan" else 0)
+    if Cin % g:
+        raise Skip("group does not divide channels")
+    M = 2 * g
+    ws = [M, Cin // g] + [3] * ns
+    cattrs = {}
+    if p["conv_pads"] == "ones":
+        cattrs["pads"] = [1] * (2 * ns)
+    elif p["conv_pads"] == "asym":
+        cattrs["pads"] = ([0, 1, 2][:ns] + [2, 0, 1][:ns])
+    if p["auto_pad"] != "absent":
+        cattrs["auto_pad"] = p["auto_pad"]
+    if p["stride"] != 1:
+        cattrs["strides"] = [p["stride"]] * ns
+    if p["dilation"] != 1:
+        cattrs["dilations"] = [p["dilation"]] * ns
+    if g != 1:
+        cattrs["group"] = g
+    if integer:
+        wdt = "u8" if dt == "u8" else "i8"
+        w = mb.const(_w(wdt, ws), "init")
+        cins = [pad, w]
+        if p["xzp"] != "absent" or p["wzp"] != "absent":
+            cins.append(mb.const(np.array(int(p["xzp"]) if p["xzp"] != "absent" else 0, dtype=S.npd(dt)), "init"))
+        if p["wzp"] != "absent":
+            cins.append(mb.const(np.array(int(p["wzp"]), dtype=S.npd(wdt)), "init"))
+        y = mb.node("ConvInteger", cins, **cattrs)
+    else:
+        w = mb.const(_w("f32", ws), "init")
+        cins = [pad, w]
+        if p["bias"] == "yes":
+            cins.append(mb.const(_w("f32", [M], salt=3), "init"))
+        y = mb.node("Conv", cins, **cattrs)
+    mb.out(y)
+    S.expose(mb, p, [pad])
+    return mb
+
+
+def _pc_near(p, rule):
+    return p["pads"] in ("neg", "batch", "chan") or p["cv"] in ("1", "1e-9") or p["mode"] in ("reflect", "edge") \
+        or p["auto_pad"] not in ("absent", "NOTSET") or S.is_nonconst(p) or p.get("xzp") == "3"
+
+
+def _pc_klass(nd, p, rule):
+    if "xzp" in nd and set(nd) <= {"xzp", "pads", "xdt", "rank", "axes", "wzp"}:
+        return "xzp=nonzero"
+    return None
+
+
+S.register(Space("pad_conv", _pc_dims, _pc_build, near=_pc_near, prune=_pc_prune, klass=_pc_klass,
+                 max_dev={"thorough": 1}),
+           rule_ids=["fuse_pad_into_conv_rule", "fuse_pad_into_conv_integer_rule"])
+
+
+# ---------------------------------------------------------------------------------------------------
+# Conv / ConvInteger with auto_pad != NOTSET -> explicit pads
+# ---------------------------------------------------------------------------------------------------
+def _np_dims(rule):
+    integer = "integer" in rule["id"]
+    d = [
+        Dim("auto_pad", ["SAME_UPPER", "SAME_LOWER", "VALID", "NOTSET", "absent"]),
+        Dim("stride", [1, 2, 3]),
+        Dim("dilation", [1, 2], [1, 2, 3]),
+        Dim("kernel", [3, 2], [3, 2, 1, 4]),
+        Dim("insize", [5, 6], [5, 6, 7, 1]),
+        Dim("kshape_attr", ["present", "absent"]),
+        Dim("rank", [4], [4, 3, 5]),
+        Dim("aniso", ["no", "yes"], cost=1),     # second spatial axis gets stride/dilation 1 and size+1
+        Dim("group", [1, 2], cost=1),
+        Dim("conv_pads", ["absent", "zeros", "ones"], cost=1),
+        Dim("symax", ["batch", "spatial"], cost=1),
+    ]
+    if not integer:
+        d += [Dim("bias", ["no", "yes"], cost=1)]
+    else:
+        d += [Dim("xzp", ["absent", "3"], cost=1)]
+    d += [S.D_DIMS, S.D_VI, S.d_opset(18, 13, 21, 23)]
+    return d
+
+
+def _np_prune(p, rule):
+    if p["symax"] != "batch" and p["dims"] == "static":
+        return True
+    return False
+
+
+def _np_build(p, rule):
+    integer = "integer" in rule["id"]
+    r = p["rank"]
+    ns = r - 2
+    mb = MB(p["opset"])
+    dt = "u8" if integer else "f32"
+    g = p["group"]
+    C = 2
+    sp = [p["insize"]] * ns
+    st = [p["stride"]] * ns
+    dl = [p["dilation"]] * ns
+    if p["aniso"] == "yes" and ns >= 2:
+        sp[1] += 1
+        st[1] = 1
+        dl[1] = 1
+    xs = [2, C] + sp
+    sym_axes = (0,) if p["symax"] == "batch" else (2,)
+    x = mb.inp("x", dt, S.shp(p, xs, sym_axes=sym_axes))
+    S.bind_like(mb, xs, sym_axes=sym_axes)
+    ws = [2 * g, C // g] + [p["kernel"]] * ns
+    attrs = {}
+    if p["auto_pad"] != "absent":
+        attrs["auto_pad"] = p["auto_pad"]
+    if st != [1] * ns:
+        attrs["strides"] = st
+    if dl != [1] * ns:
+        attrs["dilations"] = dl
+    if p["kshape_attr"] == "present":
+        attrs["kernel_shape"] = [p["kernel"]] * ns
+    if g != 1:
+        attrs["group"] = g
+    if p["conv_pads"] == "zeros":
+        attrs["pads"] = [0] * (2 * ns)
+    elif p["conv_pads"] == "ones":
+        attrs["pads"] = [1] * (2 * ns)
+    if integer:
+        ins = [x, mb.const(_w("u8", ws), "init")]
+        if p["xzp"] != "absent":
+            ins.append(mb.const(np.array(3, dtype=np.uint8), "init"))
+        y = mb.node("ConvInteger", ins, **attrs)
+    else:
+        ins = [x, mb.const(_w("f32", ws), "init")]
+        if p["bias"] == "yes":
+            ins.append(mb.const(_w("f32", [2 * g], salt=3), "init"))
+        y = mb.node("Conv", ins, **attrs)
+    mb.out(y)
+    return mb
+
+
+def _np_spec(p, rule):
+    from vf.props import c05_np
+    integer = "integer" in rule["id"]
+    ns = p["rank"] - 2
+    g = p["group"]
+    st = [p["stride"]] * ns
+    dl = [p["dilation"]] * ns
+    if p["aniso"] == "yes" and ns >= 2:
+        st[1] = 1
+        dl[1] = 1
+    ws = [2 * g, 2 // g] + [p["kernel"]] * ns
+    pads = {"absent": None, "zeros": [0] * (2 * ns), "ones": [1] * (2 * ns)}[p["conv_pads"]]
+    ap = None if p["auto_pad"] == "absent" else p["auto_pad"]
+    if ap not in (None, "NOTSET") and pads is not None:
+        return None
+
+    def f(fd):
+        x = fd["x"]
+        if integer:
+            y = c05_np.conv_integer(x, _w("u8", ws), xzp=3 if p["xzp"] != "absent" else 0, strides=st, dilations=dl,
+                                    pads=pads, group=g, auto_pad=ap)
+            return None if y is None else [y]
+        b = _w("f32", [2 * g], salt=3) if p["bias"] == "yes" else None
+        y = c05_np.conv(x, _w("f32", ws), b, st, dl, pads, g, ap)
+        return None if y is None else [y.astype(np.float32)]
+    return f
+
+
+def _np_near(p, rule):
+    return p["auto_pad"] in ("NOTSET", "absent") or (p["dims"] != "static" and p["symax"] == "spatial")
+
+
+def _np_klass(nd, p, rule):
+    if "dilation" in nd and set(nd) <= {"dilation", "stride", "kernel", "insize", "auto_pad", "kshape_attr", "rank"}:
+        return "dilation>1"
+    return None
+
+
+S.register(Space("normalize_pad_format", _np_dims, _np_build, near=_np_near, prune=_np_prune, klass=_np_klass, spec=_np_spec),
+           rule_ids=["normalize_pad_format_conv_rule", "normalize_pad_format_conv_integer_rule"])
+
+
+# ---------------------------------------------------------------------------------------------------
+# BatchNormalization(Conv | ConvTranspose | Gemm) -> folded weights
+# ---------------------------------------------------------------------------------------------------
+def _bn_dims(rule):
+    rid = rule["id"]
+    d = []
+    if "gemm" in rid:
+        d += [Dim("transA", [0, 1]), Dim("transB", [0, 1]),
+              Dim("alpha", ["absent", 2.0], ["absent", 1.0, 2.0]),
+              Dim("beta", ["absent", 0.5], ["absent", 1.0, 0.5]),
+              Dim("C", ["absent", "[N]", "[M,N]", "[]"], ["absent", "[N]", "[1,N]", "[M,N]", "[]", "[1]", "[M,1]"])]
+    else:
+        d += [Dim("bias", ["no", "yes"]), Dim("group", [1, 2]), Dim("rank", [4, 3], [4, 3, 5]),
+              Dim("stride", [1, 2], cost=1), Dim("conv_pads", ["absent", "ones"], cost=1),
+              Dim("dilation", [1, 2], cost=1)]
+        if "transpose" in rid:
+            d += [Dim("output_padding", ["absent", "1"], cost=1)]
+    d += [
+        Dim("eps", ["absent", 0.1], ["absent", 1e-3, 0.1]),
+        Dim("training", ["absent", 0, 1, "1+outputs"]),
+        Dim("dtype", ["f32"], ["f32", "f64"]),
+        Dim("shared", ["no", "weight", "bias", "bn-scale"], cost=1),
+        S.d_ck(6), S.d_inter(1), S.D_DIMS, S.D_VI, S.d_opset(18, 13, 21, 23),
+    ]
+    return d
+
+
+def _bn_prune(p, rule):
+    if p["training"] != "absent" and p["opset"] < 14:
+        return True
+    if p["shared"] == "bias" and (p.get("bias") == "no" or p.get("C") in ("absent",)):
+        return True
+    if p["ck"] in ("init_input@5", "input@5") and (p.get("bias") == "no" or p.get("C") == "absent"):
+        return True
+    if p.get("output_padding", "absent") != "absent" and p["stride"] == 1:
+        return True
+    return False
+
+
+def _bn_build(p, rule):
+    rid = rule["id"]
+    dt = p["dtype"]
+    mb = MB(p["opset"])
+    k = S.kinds(p, 6)   # W, scale, bias_bn, mean, var, inbound bias
+    d = S.npd(dt)
+
+    def cst(a, kind, salt):
+        return mb.const(a.astype(d), kind, alts=[(a * 1.5 + 0.25).astype(d)])
+    if "gemm" in rid:
+        M, K, N = 3, 4, 2
+        a_shape = [K, M] if p["transA"] else [M, K]
+        x = mb.inp("x", dt, S.shp(p, a_shape, sym_axes=(1,) if p["transA"] else (0,)))
+        S.bind_like(mb, a_shape, sym_axes=(1,) if p["transA"] else (0,))
+        w_shape = [N, K] if p["transB"] else [K, N]
+        wv = _w(dt, w_shape)
+        w = cst(wv, k[0], 1)
+        ins = [x, w]
+        cmap = {"[N]": [N], "[1,N]": [1, N], "[M,N]": [M, N], "[]": [], "[1]": [1], "[M,1]": [M, 1]}
+        bname = None
+        if p["C"] != "absent":
+            bname = cst(_w(dt, cmap[p["C"]], salt=3, scale=1.0), k[5], 3)
+            ins.append(bname)
+        attrs = {}
+        if p["transA"]:
+            attrs["transA"] = 1
+        if p["transB"]:
+            attrs["transB"] = 1
+        if p["alpha"] != "absent":
+            attrs["alpha"] = float(p["alpha"])
+        if p["beta"] != "absent":
+            attrs["beta"] = float(p["beta"])
+        inbound = mb.node("Gemm", ins, **attrs)
+        ch = N
+        if p["shared"] == "weight":
+            mb.out(mb.node("Transpose", [w], perm=[1, 0]))
+    else:
+        r = p["rank"]
+        ns = r - 2
+        g = p["group"]
+        Cin = 2 * g
+        xs = [2, Cin] + [7, 6, 5][:ns]
+        x = mb.inp("x", dt, S.shp(p, xs))
+        S.bind_like(mb, xs, variants=[{"N": 1, "?0": 1}])
+        attrs = {}
+        if g != 1:
+            attrs["group"] = g
+        if p["stride"] != 1:
+            attrs["strides"] = [p["stride"]] * ns
+        if p["conv_pads"] == "ones":
+            attrs["pads"] = [1] * (2 * ns)
+        if p["dilation"] != 1:
+            attrs["dilations"] = [p["dilation"]] * ns
+        if "transpose" in rid:
+            Mg = 3  # out channels per group
+            ws = [Cin, Mg] + [3] * ns
+            ch = Mg * g
+            op = "ConvTranspose"
+            if p.get("output_padding", "absent") != "absent":
+                attrs["output_padding"] = [1] * ns
+        else:
+            ch = 2 * g
+            ws = [ch, Cin // g] + [3] * ns
+            op = "Conv"
+        w = cst(_w(dt, ws), k[0], 1)
+        ins = [x, w]
+        bname = None
+        if p["bias"] == "yes":
+            bname = cst(_w(dt, [ch], salt=3, scale=1.0), k[5], 3)
+            ins.append(bname)
+        inbound = mb.node(op, ins, **attrs)
+        if p["shared"] == "weight":
+            mb.out(mb.node(op, ins, **attrs))
+    if p["shared"] == "bias":
+        mb.out(mb.node("Neg", [bname]))
+    scale = cst(_w(dt, [ch], salt=4, scale=0.5) + d(1.5), k[1], 4)
+    bb = cst(_w(dt, [ch], salt=5, scale=1.0), k[2], 5)
+    mean = cst(_w(dt, [ch], salt=6, scale=0.5), k[3], 6)
+    var = cst(_pos(dt, [ch], salt=7), k[4], 7)
+    if p["shared"] == "bn-scale":
+        mb.out(mb.node("Neg", [scale]))
+    battrs = {}
+    if p["eps"] != "absent":
+        battrs["epsilon"] = float(p["eps"])
+    tr = p["training"]
+    if tr in (0, 1):
+        battrs["training_mode"] = int(tr)
+    if tr == "1+outputs":
+        battrs["training_mode"] = 1
+        y, rm, rv = mb.node("BatchNormalization", [inbound, scale, bb, mean, var], n_out=3, **battrs)
+        mb.out(y)
+        mb.out(rm)
+        mb.out(rv)
+    else:
+        mb.out(mb.node("BatchNormalization", [inbound, scale, bb, mean, var], **battrs))
+    S.expose(mb, p, [inbound])
+    return mb
+
+
+def _bn_spec(p, rule):
+    from vf.props import c05_np
+    rid = rule["id"]
+    if "gemm" in rid or p["training"] in (1, "1+outputs") or S.is_nonconst(p) or p["inter"] != "none" or p["shared"] != "no":
+        return None
+    dt = p["dtype"]
+    ns = p["rank"] - 2
+    g = p["group"]
+    Cin = 2 * g
+    st = [p["stride"]] * ns
+    dl = [p["dilation"]] * ns
+    pads = [1] * (2 * ns) if p["conv_pads"] == "ones" else None
+    tr = "transpose" in rid
+    ch = 3 * g if tr else 2 * g
+    ws = ([Cin, 3] if tr else [ch, Cin // g]) + [3] * ns
+    d = S.npd(dt)
+    w = _w(dt, ws)
+    b = _w(dt, [ch], salt=3, scale=1.0) if p["bias"] == "yes" else None
+    scale = _w(dt, [ch], salt=4, scale=0.5) + d(1.5)
+    bb, mean, var = _w(dt, [ch], salt=5, scale=1.0), _w(dt, [ch], salt=6, scale=0.5), _pos(dt, [ch], salt=7)
+    eps = 1e-5 if p["eps"] == "absent" else float(np.float32(p["eps"]))
+
+    def f(fd):
+        x = fd["x"]
+        if tr:
+            op = [1] * ns if p.get("output_padding", "absent") != "absent" else None
+            y = c05_np.conv_transpose(x, w, b, st, dl, pads, g, op)
+        else:
+            y = c05_np.conv(x, w, b, st, dl, pads, g, None)
+        if y is None:
+            return None
+        return [c05_np.batchnorm(y, scale, bb, mean, var, eps).astype(d)]
+    return f
+
+
+def _bn_near(p, rule):
+    return p["training"] in (1, "1+outputs") or S.is_nonconst(p) or p["ck"] == "node" or p["shared"] in ("weight", "bias") \
+        or p["inter"] != "none"
+
+
+def _bn_klass(nd, p, rule):
+    if "gemm" in rule["id"] and set(nd) <= {"beta", "C", "alpha", "transA", "transB"}:
+        if "beta" in nd:
+            return "beta!=1"
+        if "C" in nd:
+            return "C=" + str(nd["C"])
+    return None
+
+
+S.register(Space("fuse_batchnorm", _bn_dims, _bn_build, near=_bn_near, prune=_bn_prune, klass=_bn_klass,
+                 max_dev={"thorough": 1}, accum=True, spec=_bn_spec),
+           rule_ids=["fuse_batchnorm_into_conv_rule", "fuse_batchnorm_into_conv_transpose_rule",
+                     "fuse_batchnorm_into_gemm_rule"])
+
+
+# ---------------------------------------------------------------------------------------------------
+# zero bias removal: Conv, ConvTranspose, QLinearConv, Gemm
+# ---------------------------------------------------------------------------------------------------
+def _rb_dims(rule):
+    rid = rule["id"]
+    d = [Dim("bval", ["zeros", "negzero", "tiny", "nonzero", "one-nonzero"]),
+         Dim("ck", ["init", "node", "init_input@0", "input@0"])]
+    if "gemm" in rid:
+        d += [Dim("C", ["[N]", "[M,N]", "[1]", "[]"], ["[N]", "[M,N]", "[1]", "[]", "[1,N]", "[M,1]"]),
+              Dim("transA", [0, 1]), Dim("transB", [0, 1]),
+              Dim("alpha", ["absent", 2.0]), Dim("beta", ["absent", 0.5]),
+              Dim("dtype", ["f32"], ["f32", "f64", "i32"]),
+              S.D_DIMS, S.D_VI, S.d_opset(18, 13, 9, 10, 11, 21, 23)]
+    elif "qlinear" in rid:
+        d += [Dim("xdt", ["u8", "i8"]), Dim("group", [1, 2]), Dim("conv_pads", ["absent", "ones"]),
+              Dim("stride", [1, 2], cost=1), Dim("per_channel", ["no", "yes"], cost=1),
+              S.D_DIMS, S.D_VI, S.d_opset(18, 13, 10, 21, 23)]
+    else:
+        d += [Dim("rank", [4, 3], [4, 3, 5]), Dim("group", [1, 2]),
+              Dim("conv_pads", ["absent", "ones"]), Dim("auto_pad", ["absent", "SAME_UPPER"]),
+              Dim("stride", [1, 2], cost=1), Dim("dilation", [1, 2], cost=1),
+              Dim("dtype", ["f32"], ["f32", "f64"]),
+              S.D_DIMS, S.D_VI, S.d_opset(18, 13, 11, 21, 23)]
+        if "transpose" in rid:
+            d += [Dim("output_shape", ["absent", "given"], cost=1)]
+    return d
+
+
+def _rb_prune(p, rule):
+    if p.get("auto_pad", "absent") != "absent" and p.get("conv_pads", "absent") != "absent":
+        return True
+    if p.get("dtype") == "i32" and p["bval"] in ("negzero", "tiny"):
+        return True
+    if p.get("output_shape", "absent") == "given" and p.get("auto_pad", "absent") != "absent":
+        return True
+    return False
+
+
+def _bias(p, dt, shape):
+    d = S.npd(dt)
+    n = int(np.prod(shape)) if shape else 1
+    bv = p["bval"]
+    if bv == "zeros":
+        a = np.zeros(shape, dtype=d)
+    elif bv == "negzero":
+        a = np.full(shape, -0.0, dtype=d)
+    elif bv == "tiny":
+        a = np.full(shape, 1e-9, dtype=d)
+    elif bv == "nonzero":
+        a = np.full(shape, 3, dtype=d)
+    else:
+        a = np.zeros(shape, dtype=d)
+        a.reshape(-1)[n - 1] = 2
+    return a
+
+
+def _rb_build(p, rule):
+    rid = rule["id"]
+    mb = MB(p["opset"])
+    kind = S.kinds(p, 1)[0]
+    if "gemm" in rid:
+        dt = p["dtype"]
+        M, K, N = 3, 4, 2
+        a_shape = [K, M] if p["transA"] else [M, K]
+        x = mb.inp("x", dt, S.shp(p, a_shape, sym_axes=(1,) if p["transA"] else (0,)))
+        S.bind_like(mb, a_shape, sym_axes=(1,) if p["transA"] else (0,))
+        w = mb.const(_w(dt, [N, K] if p["transB"] else [K, N]), "init")
+        cs = {"[N]": [N], "[1,N]": [1, N], "[M,N]": [M, N], "[]": [], "[1]": [1], "[M,1]": [M, 1]}[p["C"]]
+        bz = _bias(p, dt, cs)
+        b = mb.const(bz, kind, alts=[bz + S.npd(dt)(2)])
+        attrs = {}
+        if p["transA"]:
+            attrs["transA"] = 1
+        if p["transB"]:
+            attrs["transB"] = 1
+        if p["alpha"] != "absent":
+            attrs["alpha"] = float(p["alpha"])
+        if p["beta"] != "absent":
+            attrs["beta"] = float(p["beta"])
+        mb.out(mb.node("Gemm", [x, w, b], **attrs))
+        return mb
+    if "qlinear" in rid:
+        dt = p["xdt"]
+        g = p["group"]
+        Cin = 2 * g
+        M = 2 * g
+        xs = [2, Cin, 5, 4]
+        x = mb.inp("x", dt, S.shp(p, xs))
+        S.bind_like(mb, xs, variants=[{"N": 1, "?0": 1}])
+        w = mb.const(_w(dt, [M, Cin // g, 3, 3]), "init")
+        wsc = np.array([0.5] * M, dtype=np.float32) if p["per_channel"] == "yes" else np.array(0.5, dtype=np.float32)
+        wzp = np.zeros([M], dtype=S.npd(dt)) if p["per_channel"] == "yes" else np.array(0, dtype=S.npd(dt))
+        bz = _bias(p, "i32", [M])
+        b = mb.const(bz, kind, alts=[bz + np.int32(5)])
+        attrs = {}
+        if g != 1:
+            attrs["group"] = g
+        if p["conv_pads"] == "ones":
+            attrs["pads"] = [1, 1, 1, 1]
+        if p["stride"] != 1:
+            attrs["strides"] = [p["stride"]] * 2
+        ins = [x, mb.const(np.array(0.25, dtype=np.float32), "init"), mb.const(np.array(3 if dt == "u8" else -2, dtype=S.npd(dt)), "init"),
+               w, mb.const(wsc, "init"), mb.const(wzp, "init"),
+               mb.const(np.array(0.75, dtype=np.float32), "init"), mb.const(np.array(5 if dt == "u8" else 1, dtype=S.npd(dt)), "init"), b]
+        mb.out(mb.node("QLinearConv", ins, **attrs))
+        return mb
+    dt = p["dtype"]
+    r = p["rank"]
+    ns = r - 2
+    g = p["group"]
+    Cin = 2 * g
+    xs = [2, Cin] + [7, 6, 5][:ns]
+    x = mb.inp("x", dt, S.shp(p, xs))
+    S.bind_like(mb, xs, variants=[{"N": 1, "?0": 1}])
+    attrs = {}
+    if g != 1:
+        attrs["group"] = g
+    if p["conv_pads"] == "ones":
+        attrs["pads"] = [1] * (2 * ns)
+    if p["auto_pad"] != "absent":
+        attrs["auto_pad"] = p["auto_pad"]
+    if p["stride"] != 1:
+        attrs["strides"] = [p["stride"]] * ns
+    if p["dilation"] != 1:
+        attrs["dilations"] = [p["dilation"]] * ns
+    if "transpose" in rid:
+        Mg = 3
+        ws, ch, op = [Cin, Mg] + [3] * ns, Mg * g, "ConvTranspose"
+        if p.get("output_shape") == "given":
+            attrs["output_shape"] = [((s - 1) * p["stride"] + (3 - 1) * p["dilation"] + 1) + 1 for s in xs[2:]]
+            attrs.pop("pads", None)
+    else:
+        ch = 2 * g
+        ws, op = [ch, Cin // g] + [3] * ns, "Conv"
+    w = mb.const(_w(dt, ws), "init")
+    bz = _bias(p, dt, [ch])
+    b = mb.const(bz, kind, alts=[bz + S.npd(dt)(2)])
+    mb.out(mb.node(op, [x, w, b], **attrs))
+    return mb
+
+
+def _rb_spec(p, rule):
+    from vf.props import c05_np
+    rid = rule["id"]
+    if "gemm" in rid or "qlinear" in rid or S.is_nonconst(p) or p.get("auto_pad", "absent") != "absent":
+        return None
+    dt = p["dtype"]
+    ns = p["rank"] - 2
+    g = p["group"]
+    Cin = 2 * g
+    tr = "transpose" in rid
+    ch = 3 * g if tr else 2 * g
+    ws = ([Cin, 3] if tr else [ch, Cin // g]) + [3] * ns
+    st, dl = [p["stride"]] * ns, [p["dilation"]] * ns
+    pads = [1] * (2 * ns) if p["conv_pads"] == "ones" else None
+    w = _w(dt, ws)
+    b = _bias(p, dt, [ch])
+
+    def f(fd):
+        x = fd["x"]
+        if tr:
+            osh = None
+            if p.get("output_shape") == "given":
+                osh = [((s - 1) * p["stride"] + 2 * p["dilation"] + 1) + 1 for s in x.shape[2:]]
+            y = c05_np.conv_transpose(x, w, b, st, dl, None if osh else pads, g, None, osh)
+        else:
+            y = c05_np.conv(x, w, b, st, dl, pads, g, None)
+        return None if y is None else [y.astype(S.npd(dt))]
+    return f
+
+
+def _rb_klass(nd, p, rule):
+    if "opset" in nd and "gemm" in rule["id"] and nd["opset"] < 11:
+        return "opset<11"
+    return None
+
+
+def _rb_near(p, rule):
+    return p["bval"] in ("tiny", "nonzero", "one-nonzero") or S.is_nonconst(p)
+
+
+S.register(Space("remove_optional_bias", _rb_dims, _rb_build, near=_rb_near, prune=_rb_prune, klass=_rb_klass, spec=_rb_spec),
+           rule_ids=["remove_optional_bias_from_conv_rule", "remove_optional_bias_from_conv_transpose_rule",
+                     "remove_optional_bias_from_qlinear_conv_rule", "remove_optional_bias_from_gemm_rule"])
